@@ -95,6 +95,17 @@ package contract
 //@   ensures [snapshot_at_entry] !frame.isReadOnly ==> frame.snapshot == ghost(snap_taken) && ghost(snap_count) == old(ghost(snap_count)) + 1
 //@   ensures [linked] frame != nil && frame.parent == old(cc.frame) && cc.frame == frame && frame.isReadOnly == old(cc.frame.isReadOnly)
 
+// what a frame hands to its parent (trusted here; popFrame is checked for when it does so)
+//@ func (f *callFrame) applyFrameLogsOf(frame)
+//@   trusted
+//@   modifies *
+//@ func (f *callFrame) applyBTPMessagesOf(frame)
+//@   trusted
+//@   modifies *
+//@ func (f *callFrame) applyFeePayerInfoOf(frame)
+//@   trusted
+//@   modifies *
+
 // leaving a frame: on failure the world state goes back to the frame's own snapshot; logs, BTP
 // messages and fee payer information reach the parent only on success; the parent becomes current
 //@ func (cc *callContext) popFrame(success) (frame)
